@@ -208,9 +208,9 @@ func runV2(mg *modelgraph.AuthorizationModelGraph, ds storage.OpenFGADatastore, 
 		commands.WithCheckQueryV2Model(mg),
 		commands.WithCheckQueryV2Planner(pl),
 		commands.WithCheckQueryV2ConcurrencyLimit(breadth),
-		commands.WithCheckQueryV2UpstreamTimeout(20*time.Second),
+		commands.WithCheckQueryV2UpstreamTimeout(3*time.Second),
 	)
-	ctx, cancel := context.WithTimeout(context.Background(), 20*time.Second)
+	ctx, cancel := context.WithTimeout(context.Background(), 3*time.Second)
 	defer cancel()
 	var ct *openfgav1.ContextualTupleKeys
 	if len(ctxT) > 0 {
